@@ -1,4 +1,5 @@
 import SciVerif.Lemmas.C16
+import SciVerif.Lemmas.C16b
 
 /-!
 # C16 — parse() returns only environments that satisfy every declared constraint
@@ -134,5 +135,127 @@ example : exN.Sane exP := by
   rcases ho with rfl | rfl <;> simp [register, exP, exN]
 example : validate exP [exN] = true := by decide
 example : dimsWithin [(some 1, none), (none, some 3)] [2, 3] := (castDims_iff _ _).mp (by decide)
+
+/-! ## The primitives made concrete: tolerant equality and linear conversion over an ordered field
+
+`fieldPrim tbl atol rtol` instantiates the two numeric primitives with the formulas of the code
+(`np.isclose`: `|a − b| ≤ atol + rtol·|b|`; `NumberType.convert`: `v · k_src / k_dst` inside one
+dimension), over ANY ordered field.  The theorems below then speak about final values on, near
+and off the boundary of an option, for every magnitude and every pair of units. -/
+
+section Concrete
+variable {K : Type} [Field K] [LinearOrder K] [IsStrictOrderedRing K]
+
+/-- **The acceptance band of an option.**  A numeric option `o` written in unit `s`, on a node
+    whose unit `d` has the same dimension, is met by the final value `x` exactly when the converted
+    option `o · k_s / k_d` lies in the closed band `x ± (atol + rtol·|x|)` — nothing else enters. -/
+theorem C16_option_band (tbl : String → Option (LinUnitK K)) (atol rtol : K) (n : Node K)
+    (s d : String) (xs yd : LinUnitK K) (o x : K) (un : Option String)
+    (hn : n.unit = some d) (hsd : s ≠ d) (hx : tbl s = some xs) (hy : tbl d = some yd)
+    (hd : xs.dims = yd.dims) :
+    optHolds (fieldPrim tbl atol rtol) n (.num x un) (.num o (some s)) ↔
+      x - (atol + rtol * |x|) ≤ o * xs.k / yd.k ∧ o * xs.k / yd.k ≤ x + (atol + rtol * |x|) := by
+  have hc : convK tbl (some s) (some d) o = some (o * xs.k / yd.k) := by
+    exact convK_lin tbl s d xs yd o hsd hx hy hd
+  simp only [optHolds, fieldPrim_conv, fieldPrim_isclose, hn, hc, Option.some.injEq, Val.num.injEq]
+  constructor
+  · rintro ⟨w, rfl, x', un', ⟨rfl, rfl⟩, h⟩
+    exact (iscloseK_iff _ _ _ _).mp h
+  · intro h
+    exact ⟨_, rfl, x, un, ⟨rfl, rfl⟩, (iscloseK_iff _ _ _ _).mpr h⟩
+
+/-- **Accept direction on the boundary**: a final value that denotes the same physical quantity
+    as one of the listed options (`x · k_d = o · k_s`, the option written in any unit of the node's
+    dimension) passes the validation loop, whatever the other options are — for every magnitude and
+    every non-negative tolerance pair. -/
+theorem C16_accept_same_quantity (tbl : String → Option (LinUnitK K)) (atol rtol : K)
+    (ha : 0 ≤ atol) (hr : 0 ≤ rtol) (n : Node K) (hs : n.Sane (fieldPrim tbl atol rtol))
+    (s d : String) (xs yd : LinUnitK K) (o x : K) (un : Option String)
+    (hn : n.unit = some d) (hx : tbl s = some xs) (hy : tbl d = some yd) (hd : xs.dims = yd.dims)
+    (hk : yd.k ≠ 0) (hq : x * yd.k = o * xs.k)
+    (hv : n.value = some (.num x un)) (hmem : Opt.num o (some s) ∈ n.options)
+    (hdim : dimsOK n.dims n.shape = true)
+    (hcond : n.condition = none ∨ n.condition = some (some true))
+    (hfmt : n.format = none ∨ n.format = some true) :
+    validateNode (fieldPrim tbl atol rtol) n = true := by
+  rw [C16_node _ n hs]
+  refine ⟨hdim, ?_⟩
+  rw [hv]
+  refine ⟨Or.inr ⟨_, hmem, ?_⟩, hcond, hfmt⟩
+  have hw : o * xs.k / yd.k = x := by
+    rw [← hq]; field_simp
+  have hc : convK tbl (some s) (some d) o = some x := by
+    by_cases hsd : s = d
+    · subst hsd
+      rw [hx] at hy; cases hy
+      have : o = x := by
+        have := hq; rw [mul_comm x, mul_comm o] at this
+        exact (mul_left_cancel₀ hk this).symm
+      rw [this]; exact convK_same tbl s x
+    · rw [convK_lin tbl s d xs yd o hsd hx hy hd, hw]
+  simp only [optHolds, fieldPrim_conv, fieldPrim_isclose, hn, hc, Option.some.injEq, Val.num.injEq]
+  exact ⟨x, rfl, x, un, ⟨rfl, rfl⟩, iscloseK_refl atol rtol x ha hr⟩
+
+/-- **Reject direction off the boundary**: on a selectable node whose options are all numeric and
+    all convertible, a final value that is outside the band of EVERY converted option makes the
+    validation loop fail (so `parse` raises), whatever condition and format say. -/
+theorem C16_reject_off_band (tbl : String → Option (LinUnitK K)) (atol rtol : K) (n : Node K)
+    (hs : n.Sane (fieldPrim tbl atol rtol)) (x : K) (un : Option String)
+    (hv : n.value = some (.num x un)) (hne : n.options ≠ [])
+    (hoff : ∀ o u, Opt.num o u ∈ n.options → ∀ w, convK tbl u n.unit o = some w →
+      atol + rtol * |x| < |w - x|)
+    (hnum : ∀ o ∈ n.options, ∃ v u, o = Opt.num v u) :
+    validateNode (fieldPrim tbl atol rtol) n = false := by
+  cases hval : validateNode (fieldPrim tbl atol rtol) n with
+  | false => rfl
+  | true =>
+    exfalso
+    have hh := (C16_node _ n hs).mp hval
+    obtain ⟨_, hh⟩ := hh
+    rw [hv] at hh
+    rcases hh.1 with he | ⟨o, ho, hhold⟩
+    · exact hne he
+    · obtain ⟨v, u, rfl⟩ := hnum o ho
+      simp only [optHolds, fieldPrim_conv, fieldPrim_isclose] at hhold
+      obtain ⟨w, hw, x', un', hx', hclose⟩ := hhold
+      cases hx'
+      have := iscloseK_far atol rtol w x (hoff v u ho w hw)
+      rw [this] at hclose
+      cases hclose
+
+/-- An option written in a unit of another dimension cannot be registered: the node is never
+    accepted (`set_option` raises while parsing). -/
+theorem C16_option_other_dimension (tbl : String → Option (LinUnitK K)) (atol rtol : K) (n : Node K)
+    (s d : String) (xs yd : LinUnitK K) (o : K)
+    (hn : n.unit = some d) (hx : tbl s = some xs) (hy : tbl d = some yd) (hd : xs.dims ≠ yd.dims)
+    (hmem : Opt.num o (some s) ∈ n.options) :
+    validateNode (fieldPrim tbl atol rtol) n = false := by
+  have hreg : register (fieldPrim tbl atol rtol) n (.num o (some s)) = none := by
+    simp [register, fieldPrim_conv, hn, convK_other_dim tbl s d xs yd o hx hy hd]
+  have : n.options.mapM (register (fieldPrim tbl atol rtol) n) = none := by
+    cases hm : n.options.mapM (register (fieldPrim tbl atol rtol) n) with
+    | none => rfl
+    | some regs =>
+      exfalso
+      have := mapM_isSome_mem (register (fieldPrim tbl atol rtol) n) n.options regs hm _ hmem
+      simp [hreg] at this
+  simp [validateNode, this]
+
+/-! Non-vacuity over `Rat`: options `3 cm`, `2 m` on a node in `cm` with final value `200 cm`. -/
+def exTbl : String → Option (LinUnitK Rat) := fun s =>
+  if s = "cm" then some ⟨1/100, [1]⟩ else if s = "m" then some ⟨1, [1]⟩
+  else if s = "s" then some ⟨1, [0, 0, 1]⟩ else none
+def exNK : Node Rat := ⟨false, some (.num 200 (some "cm")), some "cm", true,
+  [.num 3 (some "cm"), .num 2 (some "m")], some (some true), false, none, [], []⟩
+example : validateNode (fieldPrim exTbl (1/100000000) (1/1000000)) exNK = true := by
+  refine C16_accept_same_quantity exTbl _ _ (by norm_num) (by norm_num) exNK ?_ "m" "cm"
+    ⟨1, [1]⟩ ⟨1/100, [1]⟩ 2 200 (some "cm") rfl (by simp [exTbl]) (by simp [exTbl]) rfl
+    (by norm_num) (by norm_num) rfl (by simp [exNK]) (by simp [exNK, dimsOK]) (Or.inr rfl) (Or.inl rfl)
+  refine ⟨by simp [exNK], by simp [exNK], ?_⟩
+  intro o ho
+  simp [exNK] at ho
+  rcases ho with rfl | rfl <;> simp [register, fieldPrim_conv, convK, convA, fieldArith, exTbl, exNK]
+
+end Concrete
 
 end SciVerif.C16
